@@ -605,6 +605,24 @@ func ruleAcceptDial(c *Checker) {
 						uncond = true
 					}
 				}
+				if uncond {
+					allInstrs(body, func(in ssa.Instruction) {
+						ret, ok := in.(*ssa.Return)
+						if !ok || ret.Block().Comment == "recover" {
+							return
+						}
+						if pathFromEntry(body, ret, func(x ssa.Instruction) bool {
+							for _, q := range cq {
+								if x == ssa.Instruction(q) {
+									return true
+								}
+							}
+							return false
+						}) {
+							uncond = false // an early return skips it
+						}
+					})
+				}
 				c.decide(uncond, "EXCL", tn+".Close|closes quit on every path", body.Pos(), "close(quit) unconditionally in the once body", "Close does not close quit on every path: Accept/Dial would wait forever")
 				// Done() must not fire before the connection has released what it holds: nothing that
 				// closes the gbn connection or a relay stream/socket may come after close(quit)
